@@ -52,6 +52,23 @@ def WChainOk (g : Graph) : List Nat → List Nat → Int → Prop
 
 def NonNeg (g : Graph) : Prop := ∀ e, e ∈ g.edges → 0 ≤ e.w
 
+/-! ### astar_path -/
+
+/-- one hop `u → v` over edge `e` for `astar_path(.., direction)`: the edge is followed forwards
+    (`Outgoing`), backwards (`Incoming`) or either way (`Both`), undirected edges count in every
+    direction, and `v` is a node that exists -/
+def AStep (g : Graph) (dir : Dir) (u v : Nat) (e : Edge) : Prop :=
+  e ∈ g.edges ∧ g.hasNode v = true ∧
+    ((dir.hasOut = true ∧ e.joins u v) ∨ (dir.hasIn = true ∧ e.joins v u))
+
+/-- `AWalk g dir s v c`: a walk from `s` to `v` of total weight `c` for that direction -/
+inductive AWalk (g : Graph) (dir : Dir) (s : Nat) : Nat → Int → Prop
+  | nil : AWalk g dir s s 0
+  | snoc {v w : Nat} {c : Int} (e : Edge) : AWalk g dir s v c → AStep g dir v w e → AWalk g dir s w (c + e.w)
+
+/-- every edge endpoint is an existing node (what `create_edge` / `delete_node` maintain) -/
+def EndpointsExist (g : Graph) : Prop := ∀ e, e ∈ g.edges → g.hasNode e.src = true ∧ g.hasNode e.dst = true
+
 /-! ### traverse -/
 
 /-- `v` is a neighbour of `u` for `traverse(.., dir, .., edge_type, filter)`: a different node joined by an
